@@ -23,14 +23,14 @@ one() {
   if [ -n "$suite" ]; then (cd "$ws" && go test -vet=off -count=1 ./... >/dev/null 2>&1) || echo "SUITE FAILS" >> "$rep"; fi
   if [ -n "$FAST" ]; then
     # one process: every rule once, violations of all properties (no controls, no evidence)
-    timeout 1200 /verif/bin/sqljsonlint -mode all -repo "$ws" 2>&1 | grep -E '^C[0-9]+ (VIOLATION rule|UNDECIDED|LOAD ERROR|ANALYSIS-FAILED|panic)|^(panic|goroutine )' | cut -c1-400 >> "$rep"
+    timeout 1200 ${BIN:-/verif/bin/sqljsonlint} -mode all -repo "$ws" 2>&1 | grep -E '^C[0-9]+ (VIOLATION rule|UNDECIDED|LOAD ERROR|ANALYSIS-FAILED|panic)|^(panic|goroutine )' | cut -c1-400 >> "$rep"
     rm -rf "$ws"; echo "checked $name"; return
   fi
   for i in $(seq -w 1 20); do
-    timeout 600 /verif/bin/sqljsonlint -prop C$i -repo "$ws" -verif ${VTMP:-/tmp/vtmp} 2>&1 | grep -E '^(VIOLATION rule|UNDECIDED|LOAD ERROR|ANALYSIS-FAILED|CHECKER-PROBLEM|panic|goroutine )' | sed "s/^/C$i /" | cut -c1-400 >> "$rep"
+    timeout 600 ${BIN:-/verif/bin/sqljsonlint} -prop C$i -repo "$ws" -verif ${VTMP:-/tmp/vtmp} 2>&1 | grep -E '^(VIOLATION rule|UNDECIDED|LOAD ERROR|ANALYSIS-FAILED|CHECKER-PROBLEM|panic|goroutine )' | sed "s/^/C$i /" | cut -c1-400 >> "$rep"
   done
   rm -rf "$ws"
   echo "checked $name"
 }
-export -f one
+export -f one; export BIN FAST VTMP
 find "$root" -name patch.diff | sort | xargs -P "$jobs" -I{} bash -c 'one {} '"$out $root $suite"
